@@ -417,5 +417,10 @@ def wrapping_docs():
         [f(1, "u"), on(2, "A"), f(3, "opt"), f(4, "selfNN"), f(5, "fnn")],
         [f(1, "a"), f(2, "u"), on(3, "A"), f(4, "kidsNN"), on(5, "A"), f(6, "nn"), f(2, "fail"), f(2, "guarded")],
         [f(1, "nn"), f(1, "a"), f(2, "nn"), f(2, "e"), f(2, "f"), f(2, "label")],
+        # repeated response keys whose values must be merged two levels down (objects, and objects inside lists)
+        [f(1, "a"), f(2, "self"), f(3, "self"), f(4, "n"), f(2, "self"), f(3, "self"), f(4, "nn"), f(3, "id")],
+        [f(1, "nodes"), on(2, "A"), f(3, "self"), f(4, "n"), f(1, "nodes"), on(2, "A"), f(3, "self"), f(4, "nn")],
+        [f(1, "a"), f(2, "kidsNN"), f(3, "peer"), f(4, "id"), f(2, "kidsNN"), f(3, "peer"), f(4, "label"), f(3, "id")],
+        [f(1, "ann"), f(2, "opt"), f(3, "u"), on(4, "A"), f(5, "n"), f(2, "opt"), f(3, "u"), on(4, "A"), f(5, "nn"), on(4, "B"), f(5, "b")],
     ]
     return [tree_from_flat(d, "query") for d in docs]
